@@ -2,7 +2,7 @@ HOOKS = {
     "guard": "verif",
     "enable": "go build -tags verif (every ./check run builds /repo/cmd with the tag on)",
     "baseline_off_cmd": "cd /repo && GOFLAGS=-mod=mod GOPROXY=off go test -vet=off -count=1 ./...",
-    "source_commits": ["1132257", "94a87bb"],
+    "source_commits": ["1132257", "94a87bb", "2f29a6f", "e15a799"],
     "add_only": True,
 }
 NOTES = ("Every check rebuilds the crd binary from /repo's working tree into a scratch directory, runs the TLA+ models with TLC, "
@@ -138,8 +138,12 @@ CHECKS = {
         text="IterVisitor.tla (PlusCal) models the only concurrency in crd - producer goroutine, bounded channel, consumer with early exit and drain - and "
              "TLC explores every interleaving (trees of 6 nodes, capacity 1..2, stop at any node or never): document order, exact prefix, no leaked "
              "producer, termination. Every data-producing command is run k times (8 quick / 40 thorough) across GOMAXPROCS 1/2/4/16, --debug, stdin/-/FILE, "
-             "stdout/-o (thorough: -race build too); TLC requires one (success, sha-256) per request class, and --debug runs equal to plain runs.",
+             "stdout/-o incl. a named pipe, /dev/null, /dev/full, the input file itself (thorough: -race build too); TLC requires one (success, sha-256) per "
+             "request class, and --debug runs equal to plain runs. Interleavings written by TLC's simulator for the model (free, and with the producer "
+             "filling the channel of 100 first) are replayed on the real iterator through a gate hook, the abstract state compared after every action; a "
+             "probe checks that a send on a full channel does not go through.",
         note=TB + "; a 2-way order flip escapes k repetitions with probability 2^-(k-1)",
-        technique="PlusCal model of the iterator (exhaustive interleavings), its properties checked on the real iterator in-process, + TLC "
-                  "validation of repeated-run histories of the real CLI across CPU counts, --debug and I/O paths"),
+        technique="PlusCal model of the iterator (exhaustive interleavings), TLC-simulated behaviours replayed on the real iterator (scheduler gate), "
+                  "its properties checked on the real iterator in-process, + TLC validation of repeated-run histories of the real CLI across CPU counts, "
+                  "--debug and I/O paths"),
 }
